@@ -93,6 +93,7 @@ func ecSK(cv elliptic.Curve, label string) *signerKey {
 
 type env struct {
 	c       *vf.Ctx
+	name    string
 	ca, ca2 *signerKey // trusted CA, unknown CA (both ed25519)
 	subj    *signerKey
 }
@@ -198,7 +199,7 @@ func sameFields(g *ssh.Certificate, r *cr.Cert) string {
 
 func run(c *vf.Ctx) {
 	c.Rule("A: type{1,2,0,3} x principals{none,match,other,other+match,''} x (after,before) in {0,now-1,now,now+1,2^63-1,2^63,2^64-1}^2 x critical{none,supported,unsupported,source-address,supported+unsupported} x extensions{none,flag,valued+flag} " +
-		"x CA{trusted,unknown} x signature{good,bad} x revocation{nil,false,true} x {CheckCert,Authenticate,CheckHostKey} at clock now (thorough: also clocks 1 and 2^40), plus side grids (clock nil/0/1, nil authority callbacks, plain keys, 5 signature faults, nonce lengths); " +
+		"x CA{trusted,unknown} x signature{good,bad} x revocation{nil,false,true} x {CheckCert,Authenticate,CheckHostKey} at clock now for key pairings {ed25519/ed25519 CA, rsa/ecdsa CA} (thorough: also clocks 1 and 2^40 and ecdsa/rsa CA), plus side grids (clock nil/0/1, nil authority callbacks, plain keys, 5 signature faults, nonce lengths); " +
 		"B: SignCert with CA{ed25519,rsa default,rsa [rsa-sha2-256],[ssh-rsa],p256,p384,p521} x subject{rsa,p256,p384,p521,ed25519,sk-ecdsa,sk-ed25519} x 4 field shapes byte-for-byte against the reference encoder, ssh-keygen -s certificates; " +
 		"C: every non-canonical re-encoding kind x position of 6 valid base certificates x {signature kept, re-signed} x 3 entry points; D: certificate as CA; " +
 		"non-trivial = distinct (part, entry point, reference reason or acceptance, boundary classes / re-encoding kind); oracle = reference certificate model (PROTOCOL.certkeys) verifying the CA signature over the received bytes")
@@ -207,8 +208,13 @@ func run(c *vf.Ctx) {
 	c.Assume("acceptance of a non-canonical certificate that IS signed over its received bytes is not decided (only reserved != empty and nonce lengths, which PROTOCOL.certkeys explicitly allows, must be accepted)")
 
 	seed := fmt.Sprint(c.Seed)
-	e := &env{c: c, ca: edSK(seed + "CA"), ca2: edSK(seed + "CA2"), subj: edSK(seed + "subject")}
+	e := &env{c: c, name: "ed25519 subject, ed25519 CA", ca: edSK(seed + "CA"), ca2: edSK(seed + "CA2"), subj: edSK(seed + "subject")}
 	partA(e)
+	// the same grid with other key types (the signature check is the only type dependent step)
+	partA(&env{c: c, name: "rsa subject, ecdsa-p256 CA", ca: ecSK(elliptic.P256(), seed+"CA"), ca2: ecSK(elliptic.P256(), seed+"CA2"), subj: rsaSK(1024, seed+"subject")})
+	if c.Thorough {
+		partA(&env{c: c, name: "ecdsa-p384 subject, rsa CA", ca: rsaSK(2048, seed+"CA"), ca2: rsaSK(2048, seed+"CA2"), subj: ecSK(elliptic.P384(), seed+"subject")})
+	}
 	partA2(e)
 	partB(e, seed)
 	partC(e, seed)
@@ -245,7 +251,7 @@ type gridCert struct {
 
 func (e *env) build(g gridCert, now uint64, idx int) (*cr.Cert, []byte) {
 	tv := timeVals(now)
-	ct := &cr.Cert{TypeName: sr.CertTypeOf(sr.ED25519), Nonce: e.c.Bytes("nonce", idx, 32), KeyFields: e.subj.pub.KeyFields(),
+	ct := &cr.Cert{TypeName: sr.CertTypeOf(e.subj.pub.Type), Nonce: e.c.Bytes("nonce", idx, 32), KeyFields: e.subj.pub.KeyFields(),
 		Serial: uint64(idx), CertType: typeVals[g.ti], KeyID: "grid", Principals: princSets[g.pi], ValidAfter: tv[g.ai], ValidBefore: tv[g.bi],
 		Critical: critSets[g.ci], Extensions: extSets[g.xi]}
 	ca := e.ca
@@ -354,13 +360,13 @@ func partA(e *env) {
 			}
 		}
 	}
-	c.Set("grid_certificates_per_clock", len(grid))
+	c.Set("grid_certificates_per_clock_and_key_pairing", len(grid))
 	for _, now := range nows {
 		now := now
 		c.ParallelFor(len(grid), func(i int) {
 			g := grid[i]
 			ct, b := e.build(g, now, i)
-			nt := fmt.Sprintf("%s/%s/%s/%s/ca%d/sig%d", princName[g.pi], timeName[g.ai], timeName[g.bi], critNames[g.ci], g.ca, g.sg)
+			nt := fmt.Sprintf("%s/%s/%s/%s/%s/ca%d/sig%d", e.name, princName[g.pi], timeName[g.ai], timeName[g.bi], critNames[g.ci], g.ca, g.sg)
 			e.evalCert("grid", ct, b, now, true, []int{0, 1, 2}, nt, true)
 			if g.ai == 2 && g.bi == 6 && g.ci == 1 && g.pi == 3 && g.sg == 0 && g.ca == 0 && c.WantSample() {
 				c.Sample(map[string]any{"part": "A", "type": typeVals[g.ti], "principals": princSets[g.pi], "valid_after": "now", "valid_before": "2^64-1", "critical": critNames[g.ci], "cert_bytes": len(b)})
